@@ -123,7 +123,7 @@ func genEnum(sink *Sink, tier string) {
 	if tier == "thorough" {
 		checker = "check_enum_thorough"
 	}
-	jobs := enumJobs()
+	jobs := enumJobs(tier)
 	// The Go runtime serialises part of this workload (iterator finalizers, GC), so the blocks are
 	// spread over worker PROCESSES: h_bt -prop enumworker -slice i/n writes its blocks as JSON lines.
 	results := make([]*EnumCase, len(jobs))
@@ -172,11 +172,20 @@ func genEnum(sink *Sink, tier string) {
 	}
 }
 
-func enumJobs() (jobs []struct {
+// enumBlock: range sets per case; a case's observation list must stay small enough for Coq's parser
+// (about 25 000 numbers): 1600 x 8 keys x 2 limits, 500 x 8 x 6.
+func enumBlock(tier string) int {
+	if tier == "thorough" {
+		return 500
+	}
+	return 1600
+}
+
+func enumJobs(tier string) (jobs []struct {
 	en  Engine
 	rs0 int
 }) {
-	const block = 1600
+	block := enumBlock(tier)
 	for _, en := range engines() {
 		for rs0 := 0; rs0 < enumRangeSets; rs0 += block {
 			jobs = append(jobs, struct {
@@ -203,7 +212,7 @@ func enumWorker(tier, slice, outf string) {
 	defer f.Close()
 	w := bufio.NewWriter(f)
 	defer w.Flush()
-	jobs := enumJobs()
+	jobs := enumJobs(tier)
 	for j := i; j < len(jobs); j += n {
 		st, cleanup := jobs[j].en.mk()
 		e := NewEmu(st)
@@ -211,7 +220,7 @@ func enumWorker(tier, slice, outf string) {
 		for _, k := range enumUniverse {
 			e.Exec(Call{Req: Req{Kind: "mutate", Table: "p/tables/t", Key: k, Muts: []Mutation{{Kind: "set", Fam: "f", Q: []byte("q"), Ts: 1000, V: k}}}, Now: 1000})
 		}
-		count := 1600
+		count := enumBlock(tier)
 		if jobs[j].rs0+count > enumRangeSets {
 			count = enumRangeSets - jobs[j].rs0
 		}
